@@ -59,7 +59,14 @@ pub trait RollingFinal<T>: Vec1View<T> {
             window,
             |arr| {
                 let acc_func = |acc: f64, (v, c): (T, f64)| acc + v.cast() * c;
-                arr.titer().zip(coef.titer()).fold(0., acc_func).cast()
+                // the window is shorter than `window` at the start of the series (or when
+                // the series is shorter than the window): the last coefficient always
+                // belongs to the most recent element
+                let skip = coef.len().saturating_sub(arr.len());
+                arr.titer()
+                    .zip(coef.titer().skip(skip))
+                    .fold(0., acc_func)
+                    .cast()
             },
             out,
         )
